@@ -2,7 +2,7 @@
 
 ENGINES = [
     {'name': 'vloop', 'path': 'vp/vloop.py', 'serves_properties': ['C03'], 'kind_free_text': 'virtual asyncio loop with explicit, classified ready-queue (order-preserving-delay scheduler seam)'},
-    {'name': 'explore', 'path': 'vp/explore.py', 'serves_properties': ['C03'], 'kind_free_text': 'deviation-bounded stateless schedule explorer (replay prefix on fresh objects, divergence = harness error)'},
+    {'name': 'explore', 'path': 'vp/explore.py', 'serves_properties': ['C03', 'C06'], 'kind_free_text': 'deviation-bounded stateless schedule explorer (replay prefix on fresh objects, divergence = harness error)'},
     {'name': 'enumerate', 'path': 'vp/props/*.py', 'serves_properties': ['C01', 'C02', 'C04', 'C14', 'C15', 'C18'], 'kind_free_text': 'bounded-exhaustive enumeration of inputs/histories against a Python reference model, executed on the real code'},
 ]
 
@@ -62,6 +62,14 @@ CLAIMS['C18'] = {
     'technique': 'bounded-exhaustive enumeration of every registered PDU class x boundary field values and length-encoding boundaries, both directions, incl. exhaustive ERTM control fields and operation-history pairs for process-wide registries',
     'text': 'Every registered class of L2CAP signalling (20), ATT (30), SMP (14), SDP (7) + data elements (all types, sizes 0/1/255/256/65535/65536, nesting 1..33), RFCOMM frames (types x C/R x DLCI x P/F x lengths 0,1,126..129,32767 x credit octet) and MCC/PN/MSC, AVDTP (38) + capabilities + codec info, AVCTP/AVC/AVRCP (54), RTP, advertising data (all AD types), addresses and UUIDs; all 32768+1024 ERTM control-field values; construct->bytes->parse equals and parse->rebuild->bytes identical, against encoders written in the check; history clause: all 156 one/two-operation prefixes over a 12-op alphabet x 3 UUID widths, registry-unchanged check, and the whole enumeration run forwards and reversed in one process with identical per-case outcomes.',
     'note': 'Values between boundary points are not visited. Two recorded findings (AV/C extended subunit ids, AVRCP generic player setting values) are listed in known_findings.json. Four spec deviations that bumble reads back consistently are reported in the evidence, not judged.',
+}
+
+CLAIMS['C06'] = {
+    'level': 'exploration',
+    'engine': 'explore',
+    'technique': 'exhaustive enumeration of link configurations x scripted connect/data/disconnect histories on 2-3 real device stacks, plus deviation-bounded exhaustive exploration of order-preserving link/HCI delivery delays',
+    'text': '9 scripts (pair, reconnect, fan-out, fan-in, chain, a device that is central and peripheral at once with racing connects, an incoming connection while an outgoing one is pending) x initiator own-address {public, random} x advertiser own-address {public, random} x {legacy, extended (thorough: mixed)} advertising x {LE, BR/EDR} x controller iteration orders: connect() returns the requested peer in central role, the counterpart event fires on the owner of the address and nowhere else, both ends agree on addresses, handles distinct while live, every PDU on a test fixed channel arrives exactly once, in order, only at the peer end, disconnections reported on both ends only. Scanning: passive/active scanner x 1-2 advertisers x payload lengths: raw advertising reports carry the advertising data (and scan response data when active) byte for byte. Representative configurations re-run under all schedules with <=1 (quick) / <=2 (thorough) delivery deviations.',
+    'note': 'n <= 3 devices, one advertising set per device; the scanner uses legacy scanning (the virtual controller has no extended-scan commands). One recorded finding: scan response reports carry advertising data.',
 }
 
 NOT_CLAIMED = {}
